@@ -126,9 +126,21 @@ func (x *XmlNode) ContentTrim() string {
 	return strings.TrimSpace(string(x.Content))
 }
 
+// leafText is the text of a leaf element: exactly as written for strings,
+// where whitespace is data, and without surrounding whitespace otherwise
+func (x *XmlNode) leafText(m meta.Leafable) string {
+	if t := m.Type(); t != nil {
+		switch t.Format() {
+		case val.FmtString, val.FmtStringList:
+			return string(x.Content)
+		}
+	}
+	return x.ContentTrim()
+}
+
 func (x *XmlNode) field(m meta.Leafable) (string, bool) {
 	if ndx := x.Find(0, m); ndx >= 0 {
-		return x.Nodes[ndx].ContentTrim(), true
+		return x.Nodes[ndx].leafText(m), true
 	}
 	return "", false
 }
@@ -145,12 +157,12 @@ func (x *XmlNode) Field(r node.FieldRequest, hnd *node.ValueHandle) error {
 		// The XML elements representing list entries MAY be interleaved with elements
 		// for siblings of the list
 		for ndx >= 0 {
-			found = append(found, x.Nodes[ndx].ContentTrim())
+			found = append(found, x.Nodes[ndx].leafText(r.Meta))
 			ndx = x.Find(ndx+1, r.Meta)
 		}
 		hnd.Val, err = node.NewValue(r.Meta.Type(), found)
 	} else {
-		hnd.Val, err = node.NewValue(r.Meta.Type(), x.Nodes[ndx].ContentTrim())
+		hnd.Val, err = node.NewValue(r.Meta.Type(), x.Nodes[ndx].leafText(r.Meta))
 	}
 	return err
 }
